@@ -347,7 +347,7 @@ def ref_asts(ref):
                 'name': None, 'comment': ref.comment or None, 'stmt': 'alter_fk', 'table': jt}
         a = dict(base, src=names[:n], ref_table=qn(t1), ref_cols=[c.name for c in ref.col1])
         b = dict(base, src=names[n:], ref_table=qn(t2), ref_cols=[c.name for c in ref.col2])
-        return [{'stmt': 'table', 'name': jt, 'cols': cols, 'pk_clauses': pk, 'fks': [], 'comment': None}, a, b]
+        return [{'stmt': 'table', 'name': jt, 'cols': cols, 'pk_clauses': pk, 'fks': [], 'comment': None, '_join': True}, a, b]
     holder, src, rt, rc = fk_of(ref)
     d = fk_ast(ref, src, rt, rc)
     d.update({'stmt': 'alter_fk', 'table': qn(holder)})
